@@ -452,4 +452,133 @@ theorem visitRoots_total {cfg : Cfg} {c : Circuit} (hs : Small c) (hgood : Good 
       exact visitRoots_total hs hgood rs st1 w1 (t2 st1 hv) (fun n g hg => hr n g (by simp [hg]))
         (fun hb n i hh => hi hb n i (by simp [hh])) e h
 
+/-! ### with the repaired bound the bit set never panics, whatever the circuit -/
+
+theorem finish_no_bitset_panic {cfg : Cfg} (hb : cfg.bound = true) {c : Circuit} {st : State}
+    {index : Nat} (hwf : WF cfg c st) (hidx : index < st.gateMap.size)
+    (hdisc : st.gateMap.getD index Lit.undef = Lit.discovered)
+    (hch : ∀ neg i, Lit.gate neg i ∈ (c.gates.getD index (.and, [])).2 → Done st.gateMap i) :
+    finish cfg c st index (c.gates.getD index (.and, [])).1 (c.gates.getD index (.and, [])).2
+      ≠ .error .panicBitset := by
+  have hnd : ¬ (st.gateMap.getD index Lit.undef).isDone := by rw [hdisc]; exact not_isDone_discovered
+  have hcntlt : st.newGates.size < c.gates.size := by
+    have := doneCount_lt hidx hnd
+    have := hwf.cnt
+    have := hwf.size
+    omega
+  have hsc : ∀ neg i, Lit.gate neg i ∈ (c.gates.getD index (.and, [])).2 →
+      (st.gateMap.getD i Lit.undef).scoped st.newGates.size :=
+    fun neg i hi => hwf.mapScoped i (hch neg i hi)
+  intro he
+  unfold finish at he
+  cases hn : normalise cfg st.gateMap c.gates.size c.ninputs (c.gates.getD index (.and, [])).1
+      (c.gates.getD index (.and, [])).2 with
+  | err x => rw [hn] at he; cases he
+  | fwd l => rw [hn] at he; cases he
+  | gate n r =>
+    rw [hn] at he
+    simp only at he
+    cases hl : lookup ((c.gates.getD index (.and, [])).1, sortLits r) st.unique <;>
+      rw [hl] at he <;> cases he
+  | panicBitset =>
+    obtain ⟨n, r, hp1, hdd⟩ := normalise_panic hn
+    refine dedup_no_panic (fun x hx => ?_) hdd
+    have hfrom := phase1_from hp1 x hx
+    refine idx_lt_of (by omega) ?_ ?_
+    · intro m i e
+      have := hfrom.1
+      rw [e] at this
+      simpa [unknownInput, hb] using this
+    · intro m k e
+      have := hfrom.scoped hsc
+      rw [e] at this
+      simp only [Lit.scoped] at this
+      omega
+
+theorem visitInputs_no_bitset_panic {cfg : Cfg} {c : Circuit} {rec : State → Nat → Except Err State}
+    (hspec : VisitSpec cfg c rec)
+    (hrec : ∀ st g, WF cfg c st → rec st g ≠ .error .panicBitset) :
+    ∀ (ls : List Lit) (st : State), WF cfg c st → visitInputs rec st ls ≠ .error .panicBitset
+  | [], st, _ => by simp [visitInputs]
+  | .const b :: ls, st, hwf => by
+    simp only [visitInputs]; exact visitInputs_no_bitset_panic hspec hrec ls st hwf
+  | .input n j :: ls, st, hwf => by
+    simp only [visitInputs]; exact visitInputs_no_bitset_panic hspec hrec ls st hwf
+  | .gate n g :: ls, st, hwf => by
+    simp only [visitInputs]
+    cases hr : rec st g with
+    | error e =>
+      simp only
+      intro he
+      simp only [Except.error.injEq] at he
+      exact hrec st g hwf (he ▸ hr)
+    | ok st1 =>
+      simp only
+      obtain ⟨w1, _, _⟩ := hspec st g st1 hwf hr
+      exact visitInputs_no_bitset_panic hspec hrec ls st1 w1
+
+theorem visit_no_bitset_panic {cfg : Cfg} (hb : cfg.bound = true) {c : Circuit} (hs : Small c) :
+    ∀ fuel st index, WF cfg c st → visit cfg c fuel st index ≠ .error .panicBitset
+  | 0, _, _, _ => by simp [visit]
+  | fuel + 1, st, index, hwf => by
+    rw [visit_succ]
+    by_cases hidx : index < st.gateMap.size
+    · rw [if_pos hidx]
+      by_cases hd : st.gateMap.getD index Lit.undef = Lit.discovered
+      · rw [if_pos hd]; simp
+      · rw [if_neg hd]
+        by_cases hnu : st.gateMap.getD index Lit.undef ≠ Lit.undef
+        · rw [if_pos hnu]; simp
+        · rw [if_neg hnu]
+          have hu : st.gateMap.getD index Lit.undef = Lit.undef := Classical.not_not.mp hnu
+          have hwf1 := mark_wf hwf hidx hu
+          show (match visitInputs (visit cfg c fuel) (mark st index)
+              (c.gates.getD index (.and, [])).2 with
+            | Except.error e => Except.error e
+            | Except.ok st2 => finish cfg c st2 index (c.gates.getD index (.and, [])).1
+                (c.gates.getD index (.and, [])).2) ≠ Except.error Err.panicBitset
+          have hvi := visitInputs_no_bitset_panic (visit_wf hs fuel)
+            (fun st g hw => visit_no_bitset_panic hb hs fuel st g hw)
+            (c.gates.getD index (.and, [])).2 (mark st index) hwf1
+          cases hres : visitInputs (visit cfg c fuel) (mark st index)
+              (c.gates.getD index (Kind.and, [])).2 with
+          | error e =>
+            simp only
+            intro he
+            simp only [Except.error.injEq] at he
+            exact hvi (he ▸ hres)
+          | ok st2 =>
+            simp only
+            obtain ⟨hwf2, step12, hch⟩ := visitInputs_wf (visit_wf hs fuel) _ _ st2 hwf1 hres
+            have hsz1 : (mark st index).gateMap.size = st.gateMap.size := by simp [mark]
+            have hdisc2 : st2.gateMap.getD index Lit.undef = Lit.discovered :=
+              step12.disc (by rw [mark_getD st hidx index]; simp)
+            have hidx2 : index < st2.gateMap.size := by rw [step12.size, hsz1]; exact hidx
+            exact finish_no_bitset_panic hb hwf2 hidx2 hdisc2 hch
+    · rw [if_neg hidx]; simp
+
+theorem visitRoots_no_bitset_panic {c : Circuit} (hs : Small c) :
+    ∀ (roots : List Lit) (st : State), WF Cfg.fixed c st →
+      visitRoots Cfg.fixed c st roots ≠ .error .panicBitset
+  | [], st, _ => by simp [visitRoots]
+  | .const b :: rs, st, hwf => by
+    simp only [visitRoots]; exact visitRoots_no_bitset_panic hs rs st hwf
+  | .input n i :: rs, st, hwf => by
+    simp only [visitRoots]
+    split
+    · simp
+    · exact visitRoots_no_bitset_panic hs rs st hwf
+  | .gate n g :: rs, st, hwf => by
+    simp only [visitRoots]
+    cases hv : visit Cfg.fixed c (c.gates.size + 1) st g with
+    | error e =>
+      simp only
+      intro he
+      simp only [Except.error.injEq] at he
+      exact visit_no_bitset_panic rfl hs _ st g hwf (he ▸ hv)
+    | ok st1 =>
+      simp only
+      obtain ⟨w1, _, _⟩ := visit_wf hs _ st g st1 hwf hv
+      exact visitRoots_no_bitset_panic hs rs st1 w1
+
 end OxiddModel.Circuit
